@@ -31,6 +31,8 @@ pub enum FeeSource {
 #[derive(Clone, Debug, PartialEq, Eq, Hash)]
 pub enum Ins {
     LockFee(FeeSource),
+    /// CALL_METHOD faucet "free": 10000 XRD arrive from a component the static analyser does not know
+    FaucetFree,
     Withdraw { acct: usize, res: usize, amount: Decimal },
     WithdrawNf { acct: usize, res: usize, ids: Vec<u64> },
     AcctProofAmount { acct: usize, res: usize, amount: Decimal },
@@ -76,6 +78,7 @@ impl Ins {
     pub fn kind(&self) -> &'static str {
         match self {
             Ins::LockFee(_) => "lock_fee",
+            Ins::FaucetFree => "faucet_free",
             Ins::Withdraw { .. } => "withdraw",
             Ins::WithdrawNf { .. } => "withdraw_nf",
             Ins::AcctProofAmount { .. } => "account_proof_of_amount",
@@ -188,6 +191,7 @@ pub fn lower(w: &World, ins: &Ins) -> InstructionV2 {
     match ins {
         Ins::LockFee(FeeSource::Faucet) => call(FAUCET, "lock_fee", to_manifest_value_and_unwrap!(&(Decimal::from(5000u32),))),
         Ins::LockFee(FeeSource::FeeAccount) => call(w.fee_account, ACCOUNT_LOCK_FEE_IDENT, to_manifest_value_and_unwrap!(&(Decimal::from(500u32),))),
+        Ins::FaucetFree => call(FAUCET, "free", to_manifest_value_and_unwrap!(&())),
         Ins::Withdraw { acct: a, res, amount } => call(acct(a), ACCOUNT_WITHDRAW_IDENT, to_manifest_value_and_unwrap!(&(ra(res), *amount))),
         Ins::WithdrawNf { acct: a, res, ids } => call(acct(a), ACCOUNT_WITHDRAW_NON_FUNGIBLES_IDENT, to_manifest_value_and_unwrap!(&(ra(res), ids_set(ids)))),
         Ins::AcctProofAmount { acct: a, res, amount } => call(acct(a), ACCOUNT_CREATE_PROOF_OF_AMOUNT_IDENT, to_manifest_value_and_unwrap!(&(ra(res), *amount))),
